@@ -232,6 +232,13 @@ def build_harness(release=False):
     return os.path.join(CARGO_TARGET, 'release' if release else 'debug', 'implrun')
 
 
+def _limit_memory():
+    """an input on which the library allocates without end must end as a dead process, not as a dead machine"""
+    import resource
+    lim = 6 * 1024 ** 3
+    resource.setrlimit(resource.RLIMIT_AS, (lim, lim))
+
+
 def run_sharded(cmd, lines, timeout=3000, shards=NPROC):
     """run `cmd` (list) over the case lines, sharded; returns list of output lines (same order).
     A shard whose process dies yields 'DIED' for its unanswered lines."""
@@ -244,7 +251,7 @@ def run_sharded(cmd, lines, timeout=3000, shards=NPROC):
     def one(chunk):
         data = ('\n'.join(chunk) + '\n').encode()
         try:
-            p = subprocess.run(cmd, input=data, stdout=subprocess.PIPE, stderr=subprocess.PIPE, timeout=timeout)
+            p = subprocess.run(cmd, input=data, stdout=subprocess.PIPE, stderr=subprocess.PIPE, timeout=timeout, preexec_fn=_limit_memory)
             outl = p.stdout.decode('utf-8', 'replace').split('\n')
             if outl and outl[-1] == '':
                 outl.pop()
@@ -268,7 +275,7 @@ def run_sharded(cmd, lines, timeout=3000, shards=NPROC):
 def run_single(cmd, line, timeout=60):
     try:
         p = subprocess.run(cmd, input=(line + '\n').encode(), stdout=subprocess.PIPE, stderr=subprocess.PIPE,
-                           timeout=timeout)
+                           timeout=timeout, preexec_fn=_limit_memory)
         o = p.stdout.decode('utf-8', 'replace').strip().split('\n')
         if p.returncode != 0 or not o or not o[0]:
             return 'DIED rc=%s' % p.returncode
